@@ -17,6 +17,10 @@ class Probe(object):
         self.log = []
 
     def __call__(self, value):
+        # writes its value's data under the static key Kn if a dictionary is there (in place: a value's
+        # context is its own), then records the context
+        if isinstance(value[1].get("Kn"), dict):
+            value[1]["Kn"]["w"] = value[0]
         self.log.append(copy.deepcopy(value[1]))
         return value
 
@@ -41,14 +45,19 @@ class OneValue(object):
     def __init__(self, uid):
         self.uid = uid
 
+    def data(self):
+        return [100 + self.uid, 200 + self.uid]
+
     def __call__(self):
-        yield (100 + self.uid, {"rt": 100 + self.uid})
+        for d in self.data():
+            yield (d, {"rt": d})
 
 
 class Built(object):
     def __init__(self):
         self.objs = {}     # path -> lena object (leaves and explicit nodes)
         self.uids = {}     # path -> uid of a Cache leaf
+        self.src_data = {}  # path of a Source -> the data of the values it generates
         self.root = None
         self._n = 0
 
@@ -90,7 +99,9 @@ def _item(spec, path, b):
         if kind == "seq":
             obj = lena.core.Sequence(*kids)
         else:
-            obj = lena.core.Source(OneValue(b.uid()), *kids)
+            first = OneValue(b.uid())
+            b.src_data[path] = first.data()
+            obj = lena.core.Source(first, *kids)
         b.objs[path] = obj
         return obj
     if kind == "split":
@@ -180,12 +191,12 @@ def _scribble(d):
 
 
 def run_whole(tree, b):
-    """Run one value through the whole tree; returns the list of output contexts."""
+    """Run two values through the whole tree; returns the list of output contexts."""
     kind = tree[0]
     if kind == "src":
         flow = b.root()
     else:
-        flow = b.root.run(iter([(0, {"rt": 0})]))
+        flow = b.root.run(iter([(0, {"rt": 0}), (1, {"rt": 1})]))
     out = []
     for val in flow:
         out.append(copy.deepcopy(val[1]))
